@@ -81,3 +81,31 @@ Example C17_ex_bulk :
   fst (find_par_w (fun _ => false) 160) = 160 /\
   nth 185 (snd (find_par_w (fun _ => false) 160)) 0 = 185.
 Proof. vm_compute. repeat split. Qed.
+
+(* ---- execution policies: bulk_transform's intersection, for stacks of any depth ------- *)
+From V Require Import Arith.PolicyDefs Arith.PolicyProofs.
+
+Theorem C17_policy_chain_exact : forall ps b,
+  Policy.allows_par (Policy.chain ps b) =
+    Policy.allows_par (Policy.bottom_pol b) && forallb Policy.allows_par ps /\
+  Policy.allows_unseq (Policy.chain ps b) =
+    Policy.allows_unseq (Policy.bottom_pol b) && forallb Policy.allows_unseq ps.
+Proof. intros ps b. split; [exact (chain_par ps b) | exact (chain_unseq ps b)]. Qed.
+Print Assumptions C17_policy_chain_exact.
+
+Theorem C17_policy_never_exceeds : forall ps b,
+  (Policy.allows_par (Policy.chain ps b) = true ->
+     Policy.allows_par (Policy.bottom_pol b) = true /\
+     forall p, In p ps -> Policy.allows_par p = true) /\
+  (Policy.allows_unseq (Policy.chain ps b) = true ->
+     Policy.allows_unseq (Policy.bottom_pol b) = true /\
+     forall p, In p ps -> Policy.allows_unseq p = true).
+Proof. exact chain_never_exceeds. Qed.
+Print Assumptions C17_policy_never_exceeds.
+
+Example C17_ex_policy :
+  Policy.chain [Policy.ParUnseq; Policy.Par] (Policy.BPol Policy.ParUnseq) = Policy.Par /\
+  Policy.chain [Policy.Unseq] (Policy.BPol Policy.Par) = Policy.Seq /\
+  Policy.chain [Policy.Unseq; Policy.ParUnseq] Policy.BJoin = Policy.Unseq /\
+  Policy.chain [Policy.ParUnseq] Policy.BNone = Policy.Seq.
+Proof. vm_compute. repeat split. Qed.
